@@ -24,6 +24,8 @@ RULE = (
     '4000 (thorough 20000) copies of one of 21 characters or escapes and one of 7 tails: same tiling oracle, and the runner kills a '
     'worker that is still computing on one case after 20 s of CPU time (hang:cpu-bound) - regular-expression backtracking is the '
     'only way this tokenizer can fail to terminate. '
+    'keywords: every letter of url( and of the reserved at-keywords written as a hex escape (lower / upper case digits, 2 or 6 digits, every '
+    'terminator): still one URI / *_SYM token. '
     'complete: a prefix, then an unterminated url( (13 spellings incl. hex and simple escapes of u/r/l, optional white space, bare / '
     'quoted / quoted-and-closed content), string or comment at the end of the text, full-sheet mode; oracle = same token kinds, '
     'values and positions as for the explicitly terminated text, exactly one EOF. '
@@ -603,7 +605,7 @@ def check_errpos(case, ctx):
 # ---------------------------------------------------------------------------
 # completion at the end of input (full-sheet mode)
 
-URL_SPELLINGS = ['url(', 'URL(', 'Url(', 'u\\72l(', 'u\\72 l(', '\\75 rl(', '\\000075rl(', 'ur\\6c(', 'ur\\6C(', 'U\\52 L(',
+URL_SPELLINGS = ['url(', 'URL(', 'Url(', 'ur\\6C(', 'ur\\4C(', '\\75\\72\\6C (', 'u\\72l(', 'u\\72 l(', '\\75 rl(', '\\000075rl(', 'ur\\6c(', 'ur\\6C(', 'U\\52 L(',
                  'ur\\l(', '\\55\tRL(', 'u\\000072\r\nl(']
 OPEN_CONTENT = ['', 'a', 'x.png', 'a/b.css?q=1', '\\41 b', 'é', '#f', 'a-b_c', '%20']
 PREFIXES = ['', 'a{background:', 'a { b : c } ', '@import ', '/* c */', 'x\n{y:\n', '"s" ', 'a{b:url(x)}\n']
@@ -655,7 +657,8 @@ def check_complete(case, ctx):
 # long runs of one character class after every opener: the tokenizer must stay (about) linear
 
 OPENERS = ['', '/*', '"', "'", 'url(', 'url("', "url('", '\\', '@', '#', '.', '-', 'u+', '<!-', '1', '1e', 'a', '\\41', '!', 'U+1', '*/', '/']
-RUNCHARS = ['*', '/', 'a', '1', '\\', ' ', '\n', '"', "'", '-', '.', '?', 'f', '\\a ', '\\\n', 'é', '(', ')', '+', '%', '\r']
+RUNCHARS = ['*', '/', 'a', '1', '\\', ' ', '\n', '"', "'", '-', '.', '?', 'f', '\\a ', '\\\n', 'é', '(', ')', '+', '%', '\r',
+            '\\41', '\\AB', '\\a\t', '\\000041', '\\g', 'u', '\\6C', '@', '#', 'e', '0.', 'U+', '|', '!', '<', '-->']
 TAILS = ['', ' x', '/', '*/', '"', ')', '\n']
 
 
@@ -678,7 +681,35 @@ def check_runs(case, ctx):
     ctx.case([case['opener'], case['char'], case['n'], case['tail'], case['fullsheet']], case['n'] >= 400, None)
 
 
+# ---------------------------------------------------------------------------
+# every hex spelling of the letters of url( / the reserved at-keywords is the same token
+
+
+def spelled_keyword_cases(tier):
+    words = [('url(', 'a)', 'URI'), ('@import', ' "x";', 'IMPORT_SYM'), ('@media', ' tv{}', 'MEDIA_SYM'), ('@page', '{}', 'PAGE_SYM'),
+             ('@namespace', ' "u";', 'NAMESPACE_SYM'), ('@font-face', '{}', 'FONT_FACE_SYM')]  # '@charset "' is exact by CSS 2.1: not here
+    for word, tail, kind in words:
+        for i, ch in enumerate(word):
+            if not ch.isalpha():
+                continue
+            for code in {ord(ch), ord(ch.upper())}:
+                for digits in ('%x' % code, '%X' % code, '%06x' % code, '%06X' % code, '00%X' % code):
+                    for term in ('', ' ', '\t', '\n', '\r\n'):
+                        nxt = (word[i + 1:] + tail)[:1]
+                        if term == '' and (nxt in ' \t\r\n\f' or (len(digits) < 6 and nxt in HEX)):
+                            continue  # the next character would be read as the terminator / as part of the escape
+                        yield {'text': word[:i] + '\\' + digits + term + word[i + 1:] + tail, 'kind': kind, 'word': word}
+
+
+def check_spelled_keyword(case, ctx):
+    tokens = toks(case['text'], False)
+    ctx.case(case['text'], True, None)
+    if not tokens or tokens[0][0] != case['kind']:
+        raise Violation('class:escaped-spelling-of-keyword', f'{case["text"]!r} starts with {tokens[:2]!r}, expected one {case["kind"]} token')
+
+
 SUBS = [
+    Sub('keywords', check_spelled_keyword, enumerate=spelled_keyword_cases, shards_quick=2, shards_thorough=2),
     Sub('runs', check_runs, enumerate=runs_cases, shards_quick=8, shards_thorough=16, budget_quick=120, budget_thorough=3000),
     Sub('complete', check_complete, strategy=complete_strategy, quick=4000, thorough=200000, shards_quick=4),
     Sub('tiling', check_tiling, strategy=tiling_strategy, quick=40000, thorough=2400000, shards_quick=8),
